@@ -1005,4 +1005,41 @@ theorem blocks_frontmatter_offsets (cs : CharSpec) (s : List Char) (fm : FrontMa
           simp only [o2, List.flatMap_append, List.flatMap_cons, utf8Len_append]
           omega
 
+/-! ### blocks are in source order -/
+
+theorem blocks_chain_before (off : Nat) (a b : List Tok) (h : Chain off (a ++ b)) :
+    ∀ u ∈ a, ∀ v ∈ b, u.stop ≤ v.start := by
+  intro u hu v hv
+  obtain ⟨h1, h2⟩ := (blocks_chain_append off a b).1 h
+  have := (blocks_chain_bounds off a h1 u hu).2
+  have := (blocks_chain_bounds _ b h2 v hv).1
+  omega
+
+theorem blocks_all_mem_sub : ∀ (f : Nat) (ts b : List Tok), b ∈ allBlocks f ts → ∀ u ∈ b, u ∈ ts := by
+  intro f ts b hb u hu
+  obtain ⟨_, pre, post, e⟩ := blocks_all_infix f ts b hb
+  rw [e]; simp [hu]
+
+theorem blocks_all_ordered : ∀ (f : Nat) (off : Nat) (ts : List Tok), Chain off ts →
+    (allBlocks f ts).Pairwise (fun b1 b2 => ∀ u ∈ b1, ∀ v ∈ b2, u.stop ≤ v.start) := by
+  intro f
+  induction f with
+  | zero => intro off ts _; simp [allBlocks]
+  | succ n ih =>
+    intro off ts h
+    simp only [allBlocks]
+    cases hn : nextBlock ts with
+    | none => simp
+    | some p =>
+      obtain ⟨b, rest⟩ := p
+      obtain ⟨pre, post, e, _, _, _, _⟩ := blocks_next_some ts b rest hn
+      simp only [List.pairwise_cons]
+      have e' : ts = (pre ++ b ++ post) ++ rest := by rw [e]; simp [List.append_assoc]
+      rw [e'] at h
+      constructor
+      · intro b2 hb2 u hu v hv
+        have hv' := blocks_all_mem_sub n rest b2 hb2 v hv
+        exact blocks_chain_before off _ rest h u (by simp [hu]) v hv'
+      · exact ih _ rest ((blocks_chain_append off _ rest).1 h).2
+
 end Cook
